@@ -362,3 +362,103 @@ package graph
 //@   ensures  [mirror-succ-implies-edge] forall(i, int, imp(0 <= i && i < len(result0) && has(g.hash, hc(b)) && result0[i] == g.hash[hc(b)], edge(g, hc(a), hc(b))))
 //@   ensures  [mirror-pred-implies-edge] forall(j, int, imp(0 <= j && j < len(result1) && has(g.hash, hc(a)) && result1[j] == g.hash[hc(a)], edge(g, hc(a), hc(b))))
 //@   assigns  []Vertex
+
+// ================================================================ C20: traversals and orderings
+
+// ---------------------------------------------------------------- path.go: TopoShortestPath
+// The caller exhibits the position function of the order (uf tpos): L lists
+// every vertex once, tpos inverts it, every edge points forward.
+//@ uf tpos(k any) int
+//@ ghost topoOK(g *Graph, L TopoOrder) bool =
+//@     forall(i, int, imp(0 <= i && i < len(L), has(g.hash, hc(L[i])) && L[i] == g.hash[hc(L[i])] && tpos(hc(L[i])) == i))
+//@     && forall(a, any, b, any, imp(edge(g, a, b), tpos(a) < tpos(b)))
+//@     && forall(k, any, imp(has(g.hash, k), 0 <= tpos(k) && tpos(k) < len(L) && hc(L[tpos(k)]) == k))
+
+//@ func (*Graph).TopoShortestPath
+//@   requires wf(g) && topoOK(g, L)
+//@   ensures  [domains] forall(v, any, has(edgeTo, v) == has(distTo, v))
+//@   ensures  [realised] forall(v, any, imp(has(distTo, v), has(g.hash, hc(edgeTo[v])) && edgeTo[v] == g.hash[hc(edgeTo[v])] && edge(g, hc(edgeTo[v]), v) && distTo[v] == distTo[hc(edgeTo[v])] + wgt(g, hc(edgeTo[v]), v)))
+//@   ensures  [relaxed] forall(u, any, v, any, imp(edge(g, u, v), has(distTo, v) && distTo[v] <= distTo[u] + wgt(g, u, v)))
+//@   ensures  [graph-kept] heapKept() && fresh(distTo) && fresh(edgeTo)
+//@   assigns  Inner, HashM
+//@   loop 1 invariant heapKept() && fresh(distTo) && fresh(edgeTo) && distTo != nil && edgeTo != nil
+//@   loop 1 invariant forall(v, any, has(edgeTo, v) == has(distTo, v))
+//@   loop 1 invariant forall(v, any, imp(has(distTo, v), has(g.hash, hc(edgeTo[v])) && edgeTo[v] == g.hash[hc(edgeTo[v])] && tpos(hc(edgeTo[v])) < idx1 && edge(g, hc(edgeTo[v]), v) && distTo[v] == distTo[hc(edgeTo[v])] + wgt(g, hc(edgeTo[v]), v)))
+//@   loop 1 invariant forall(u, any, v, any, imp(edge(g, u, v) && tpos(u) < idx1, has(distTo, v) && distTo[v] <= distTo[u] + wgt(g, u, v)))
+//@   loop 2 invariant heapKept() && fresh(distTo) && fresh(edgeTo) && distTo != nil && edgeTo != nil
+//@   loop 2 invariant 0 <= idx1 && idx1 < len(L) && u == L[idx1] && uh == hc(u) && rmap2 == g.adjacencyOut[uh] && tpos(uh) == idx1 && has(g.hash, uh)
+//@   loop 2 invariant forall(v, any, has(edgeTo, v) == has(distTo, v))
+//@   loop 2 invariant forall(v, any, imp(has(distTo, v), has(g.hash, hc(edgeTo[v])) && edgeTo[v] == g.hash[hc(edgeTo[v])] && tpos(hc(edgeTo[v])) <= idx1 && edge(g, hc(edgeTo[v]), v) && distTo[v] == distTo[hc(edgeTo[v])] + wgt(g, hc(edgeTo[v]), v)))
+//@   loop 2 invariant forall(x, any, v, any, imp(edge(g, x, v) && (tpos(x) < idx1 || (x == uh && in(v, seen2))), has(distTo, v) && distTo[v] <= distTo[x] + wgt(g, x, v)))
+
+// ---------------------------------------------------------------- dfs.go
+// Ghost state: `reported` collects the hash codes the callback has been
+// invoked on; `dvisited` mirrors the domain of the traversal's visited map.
+// descends(cb, v): whether callback cb descends (calls next) on vertex v —
+// assumed to be a function of the vertex (T5).
+//@ ghostvar reported set[any]
+//@ ghostvar dvisited set[any]
+//@ uf descends(cb DFSFunc, v any) bool
+
+//@ ghost graphKept() bool =
+//@     forall(x, *Graph, imp(old(allocated(x)), x.adjacencyOut == old(x.adjacencyOut) && x.adjacencyIn == old(x.adjacencyIn) && x.hash == old(x.hash)))
+//@     && forall(m, Outer, imp(old(allocated(m)), unchanged(m)))
+//@     && forall(m, HashM, imp(old(allocated(m)), unchanged(m)))
+//@     && forall(m, Inner, imp(old(allocated(m)), unchanged(m)))
+
+// what dfs(cb, visited, v) guarantees when it returns nil
+//@ ghost dfsPost(g *Graph, cb DFSFunc, v any) bool =
+//@     forall(k, any, imp(old(in(k, dvisited)), in(k, dvisited))) && in(v, dvisited)
+//@     && forall(k, any, imp(old(in(k, reported)), in(k, reported)))
+//@     && forall(x, any, y, any, imp(in(x, dvisited) && !old(in(x, dvisited)) && edge(g, x, y), in(y, dvisited) || (in(y, reported) && !descends(cb, g.hash[y]))))
+//@     && forall(y, any, imp(in(y, reported) && !old(in(y, reported)), exists(x, any, in(x, dvisited) && !old(in(x, dvisited)) && edge(g, x, y))))
+//@     && forall(x, any, imp(in(x, dvisited) && !old(in(x, dvisited)) && x != v, in(x, reported) && descends(cb, g.hash[x])))
+
+// The callback type. Assumed for arbitrary callbacks (T5: a callback touches no
+// traversal state except by calling next at most once, and it calls next iff
+// descends(self, v)); VERIFIED for the one real callback in argmapper.callGraph.
+//@ extern type:graph.DFSFunc :: (v Vertex, next func() error) error
+//@   requires [next-is-dfs-closure] fncode(next) == litcode("graph.(*Graph).dfs$1")
+//@   requires [once] !in(captured(next, "graph.(*Graph).dfs$1", "w"), dvisited)
+//@   requires captured(next, "graph.(*Graph).dfs$1", "g") != nil && wf0(captured(next, "graph.(*Graph).dfs$1", "g")) && captured(next, "graph.(*Graph).dfs$1", "visited") != nil
+//@   requires dom(captured(next, "graph.(*Graph).dfs$1", "visited")) == dvisited && captured(next, "graph.(*Graph).dfs$1", "cb") == self
+//@   requires v == captured(next, "graph.(*Graph).dfs$1", "g").hash[captured(next, "graph.(*Graph).dfs$1", "w")]
+//@   ensures  in(captured(next, "graph.(*Graph).dfs$1", "w"), reported) && forall(k, any, imp(old(in(k, reported)), in(k, reported))) && forall(k, any, imp(old(in(k, dvisited)), in(k, dvisited)))
+//@   ensures  imp(result == nil && descends(self, v), dfsPost(captured(next, "graph.(*Graph).dfs$1", "g"), self, captured(next, "graph.(*Graph).dfs$1", "w")))
+//@   ensures  imp(!descends(self, v), dvisited == old(dvisited) && reported == add(old(reported), captured(next, "graph.(*Graph).dfs$1", "w")))
+//@   ensures  dom(captured(next, "graph.(*Graph).dfs$1", "visited")) == dvisited
+//@   ensures  graphKept()
+//@   assigns  VisitM, reported, dvisited
+
+//@ func (*Graph).dfs$1
+//@   requires g != nil && wf0(g) && visited != nil && cb != nil && !in(w, dvisited) && dom(visited) == dvisited
+//@   ensures  imp(result == nil, dfsPost(g, cb, w))
+//@   ensures  dom(visited) == dvisited && graphKept()
+//@   ensures  forall(k, any, imp(old(in(k, reported)), in(k, reported))) && forall(k, any, imp(old(in(k, dvisited)), in(k, dvisited)))
+//@   assigns  VisitM, reported, dvisited
+
+//@ func (*Graph).dfs
+//@   requires wf0(g) && visited != nil && cb != nil && !in(v, dvisited) && dom(visited) == dvisited
+//@   ensures  [closure-certificate] imp(result == nil, dfsPost(g, cb, v))
+//@   ensures  [mirror] dom(visited) == dvisited
+//@   ensures  [graph-kept] graphKept()
+//@   ensures  [monotone] forall(k, any, imp(old(in(k, reported)), in(k, reported))) && forall(k, any, imp(old(in(k, dvisited)), in(k, dvisited)))
+//@   assigns  VisitM, reported, dvisited
+//@   after "visited[v] = struct{}{}" set dvisited = add(dvisited, v)
+//@   loop 1 invariant graphKept() && dom(visited) == dvisited && rmap1 == g.adjacencyOut[v]
+//@   loop 1 invariant forall(k, any, imp(old(in(k, dvisited)), in(k, dvisited))) && in(v, dvisited) && forall(k, any, imp(old(in(k, reported)), in(k, reported)))
+//@   loop 1 invariant forall(x, any, y, any, imp(in(x, dvisited) && !old(in(x, dvisited)) && x != v && edge(g, x, y), in(y, dvisited) || (in(y, reported) && !descends(cb, g.hash[y]))))
+//@   loop 1 invariant forall(y, any, imp(in(y, seen1), edge(g, v, y) && (in(y, dvisited) || (in(y, reported) && !descends(cb, g.hash[y])))))
+//@   loop 1 invariant forall(y, any, imp(in(y, reported) && !old(in(y, reported)), exists(x, any, in(x, dvisited) && !old(in(x, dvisited)) && edge(g, x, y))))
+//@   loop 1 invariant forall(x, any, imp(in(x, dvisited) && !old(in(x, dvisited)) && x != v, in(x, reported) && descends(cb, g.hash[x])))
+
+//@ func (*Graph).DFS
+//@   requires wf0(g) && cb != nil
+//@   ensures  [closure-certificate] imp(result == nil, in(hc(start), dvisited)
+//@               && forall(x, any, y, any, imp(in(x, dvisited) && edge(g, x, y), in(y, dvisited) || (in(y, reported) && !descends(cb, g.hash[y]))))
+//@               && forall(y, any, imp(in(y, reported) && !old(in(y, reported)), exists(x, any, in(x, dvisited) && edge(g, x, y))))
+//@               && forall(x, any, imp(in(x, dvisited) && x != hc(start), in(x, reported) && descends(cb, g.hash[x]))))
+//@   ensures  [graph-kept] graphKept()
+//@   ensures  [monotone] forall(k, any, imp(old(in(k, reported)), in(k, reported)))
+//@   assigns  VisitM, reported, dvisited
+//@   before "return g.dfs(" set dvisited = emptyset(any)
